@@ -10,7 +10,7 @@ import ast
 
 from ..backends import backend_paths, delegation_binding, local_value
 from ..kai import Arr, cond_repr, flatten_and, interpret
-from ..kutil import returned_arrays, Spec, approx_equal, const_ratio, offsets, reads_in, show, guard_atoms
+from ..kutil import value_cases, is_nan_value, returned_arrays, Spec, approx_equal, const_ratio, offsets, reads_in, show, guard_atoms
 from ..program import AnalysisIncomplete, Ext, Func, Partial, norm
 from ..sym import App, Rat, Sym, subst, walk_atoms
 
@@ -113,11 +113,15 @@ def analyse_index(prog, rep, pub, path, formula_text):
     if len(rets) != 1:
         raise AnalysisIncomplete('%s: kernel %s does not return one array' % (entry, kern.qualname))
     out = rets[0]
-    rep.add('M2-init', kern, entry, 'output %s initialised %r' % (getattr(out, 'var', out.name), out.init),
-            kern.node.lineno, out.init == 'nan', 'output must start all-NaN (undefined cells stay NaN)')
     stores = [s for s in k.stores if s.arr is out and s.idx != 'all']
     if not stores:
         raise AnalysisIncomplete('%s: no per-cell store' % entry)
+    # a cell is undefined-as-NaN either because the output starts all-NaN and only defined cells are stored, or because
+    # every cell is stored with NaN on the undefined branch (then the initial content never shows)
+    total = all(not flatten_and(s_.guards) for s_ in stores)
+    rep.add('M2-init', kern, entry, 'output %s initialised %r%s' % (getattr(out, 'var', out.name), out.init, ', every cell stored' if total else ''),
+            kern.node.lineno, out.init == 'nan' or (total and all(any(is_nan_value(v_) for c_, v_ in value_cases(s_.value)) for s_ in stores)),
+            'undefined cells must be NaN: the output starts all-NaN, or every cell is stored unconditionally with NaN on the undefined branch')
     # public-name substitution
     pubsyms = {}
     for p, (root, expr) in bind.items():
@@ -160,13 +164,19 @@ def analyse_index(prog, rep, pub, path, formula_text):
                 if isinstance(expr, ast.Constant) and isinstance(expr.value, (int, float)):
                     return Rat.const(expr.value)
             return None
-        val = subst(s.value, to_public)
+        cases = value_cases(s.value, s.guards)
+        defined = [(c_, v_) for c_, v_ in cases if not is_nan_value(v_)]
+        if len(defined) != 1:
+            rep.add('M1', kern, entry, norm(s.node), s.node.lineno, None if defined else False,
+                    'the stored value must be the index on one branch and NaN otherwise; %d non-NaN branches' % len(defined))
+            continue
+        gs, sval = defined[0]
+        val = subst(sval, to_public)
         ok = approx_equal(val, want, tol=0)
         rep.add('M1', kern, entry, '%s = %s' % (name, show(val, 400)), s.node.lineno, ok,
                 'per-cell value, in public parameter names, must equal the published formula %s [%s]'
                 % (formula_text, FORMULAS[name][1]), facts={'expected': show(want, 300)})
         # guard: exactly the divisor != 0
-        gs = flatten_and(s.guards)
         gok = False
         why = 'guards: %s' % [cond_repr(g)[:100] for g in gs]
         if len(gs) == 1 and gs[0][0] == 'cmp' and gs[0][1] == '!=':
